@@ -95,24 +95,112 @@ PROPS["C16"] = {
     "design_ref": "DESIGN.md 7 (C16)",
 }
 
+PROPS["C02"] = {
+    "engines": {"gc": {"quick": 150, "thorough": 1500}, "vm": {"quick": 150, "thorough": 1500}},
+    "rule": "gc engine: allocation-heavy well-scoped programs (strings, nested tables, arrays, closures capturing locals, stdlib calls with allocating callbacks, host functions that allocate and re-enter) "
+            "run once without forced collections and then under forced schedules on the REAL vm (hook: verif::set_gc_schedule; every allocation point, each single point k < 40, random 64-bit masks), "
+            "with swept objects poisoned instead of freed (hook: quarantine) so that any later read of a swept object is detected; outcomes (result, globals deep-read, host log) must be equal for all schedules, "
+            "and every run is compared line by line with the Lean VM model under the same schedule. vm engine: run/clear histories compared with the model incl. accounted bytes, frame and stack heights. "
+            "non-trivial = the program allocates at least one object",
+    "trusted_base": ["the heap model (addresses = allocation counter, objects = tagged records) abstracts the raw pointers of cao_lang_object.rs; 'reads freed memory' is observed on the real code through the quarantine hook (poisoned objects), not proved about the Rust",
+                     "the root set of the model (value stack, globals, frame closures, open upvalues, guards) is compared with runtime_data.rs only through behaviour under forced schedules"],
+    "assumptions": ["host functions follow the documented protocol: values they hold across an allocation are on the VM stack or guarded"],
+    "partial": "schedule independence of whole runs (schedule_independence_Full) is stated, and proved for the allocation step (allocBytes_any_schedule, allocBytes_schedule_independent, withObject_obs) and for collection itself (obsEq_gc); the lift through every instruction of `step` is not yet a theorem and is covered by the gc engine",
+    "technique": "Lean 4 proofs about the mark-sweep model (collection frees exactly the unreachable objects, preserves every reachable one unchanged, is idempotent, and is invisible up to observational equivalence at every allocation point, for every forcing schedule) + differential correspondence of the real VM under forced-collection schedules with poisoned sweeps",
+    "level_text": "Proved in Lean for every heap (any size, sharing, cycles), root set and forcing schedule: the worklist mark phase computes exactly the objects reachable from the roots (markLoop_exact, mem_reachable, fuel_adequate), a collection removes exactly the unreachable objects and leaves every reachable object and all roots unchanged (gc_exact, gc_preserves_reachable, gc_frees_only_unreachable, gc_get, gc_roots_unchanged), creates no dangling reference (gc_no_dangling, gc_usable_values_valid), is idempotent (gc_idempotent), and a state and its collected version are observationally equivalent, so an allocation behaves the same whether or not, and however often, a collection is forced at it (obsEq_gc, allocBytes_obs, allocBytes_any_schedule, allocBytes_schedule_independent, withObject_obs). The run-level statement is kept as schedule_independence_Full and exercised, not proved. Tied to the real VM by the gc engine (forced schedules + quarantine) and the vm engine.",
+    "level_note": "Trusted: Lean kernel; heap/roots model vs runtime_data.rs as far as the differential runs under forced schedules show; memory safety of the unsafe Rust is observed (poisoned sweeps), not proved; lift of the allocation-step lemma to whole runs not proved.",
+    "design_ref": "DESIGN.md 7 (C02), 6.5",
+}
+
+PROPS["C05"] = {
+    "engines": {"mem": {"quick": 200, "thorough": 3000}, "vm": {"quick": 200, "thorough": 2000}, "gc": {"quick": 100, "thorough": 1000}},
+    "rule": "mem engine: histories of new(mem limit 1.5 KiB - 60 KiB)/run/stats/clear on one REAL vm with three program families (garbage-only loops of strings, tables, host-built tables and closures that must never report OutOfMemory on a cleared machine; live data appended to a global table until the limit is hit; tables grown across every capacity step, also as garbage); vm/gc engines: general and allocation-heavy programs; "
+            "after every op the accounted bytes (hook: verif::alloc_counters), the collection threshold, the number of live objects, frame and stack heights are compared with the Lean model, whose charges come from the generated layout constants (Layout.lean: object 96 B, string 4*len+4, table 40*cap+8); "
+            "the oracle additionally requires accounted <= limit, accounted = 0 after clear and no OutOfMemory for the garbage-only family. non-trivial = at least one allocation",
+    "trusted_base": ["the allocator's bookkeeping is modelled at the level of alloc/dealloc calls with sizes taken from the Rust layouts (regenerated on every run through `caoharness dump layout`); the system allocator itself is outside the model",
+                     "object sizes: size_of::<CaoLangObject>() etc. are read from the compiled crate, not derived"],
+    "assumptions": ["tableInsert lemmas assume the table is reachable from a root and heap addresses are unique (both proved invariants: gc_unique, withObject_unique)"],
+    "partial": "the invariant Inv (ledger exact, within limit, unique addresses, fresh counter, threshold) is proved for every allocating primitive, collection and clear; its lift to every instruction of `step` (i.e. to all reachable states of a run) is covered by the vm engine's line-by-line comparison of the counters, not yet by a theorem",
+    "technique": "Lean 4 invariant proofs about the allocator/collector model (ledger = sum of outstanding charges, never above the limit, zero after clear, OutOfMemory iff reachable + request > limit) + differential correspondence of the real allocator counters",
+    "level_text": "Proved in Lean for every state satisfying the ledger invariant, every request size, limit and forcing schedule: the byte counter equals the sum of the charges of the allocated objects before and after collection, object creation (success and failure), table growth and clear (gc_ledger, initTable_ledger, initString_ledger, initSimple_ledger, tableInsert_ledger, clear_ledger, allocBytes_ok_ledgerP, allocBytes_err_ledgerP), never exceeds the limit (alloc_le_limit and *_le_limit), is zero after clear (clear_zero); a request is refused if and only if the charge of the objects reachable from the roots plus the request exceeds the limit (alloc_outcome_iff, oom_only_if_full, alloc_succeeds_if_fits), so garbage never causes OutOfMemory; the collection threshold never drops below its initial value and is reset by clear (nextGc_ge_initial, clear_threshold, threshold_after_gc). Tied to alloc.rs/runtime_data.rs by comparing the real counters after every operation.",
+    "level_note": "Trusted: Lean kernel; allocator model vs alloc.rs as far as the sampled differential run shows; layout constants read from the compiled crate; lift of Inv to whole runs not yet proved.",
+    "design_ref": "DESIGN.md 7 (C05), 6.5",
+}
+
+PROPS["C03"] = {
+    "engines": {"vm": {"quick": 400, "thorough": 4000}, "nat": {"quick": 200, "thorough": 2000}, "std": {"quick": 150, "thorough": 1500}},
+    "rule": "vm engine: well-scoped random programs (loops, recursion, closures, stdlib calls with script callbacks, host functions that re-enter scripts) run with budgets 0-40 (one case in six), 1000 and 200000; "
+            "every run reports the number of dispatched instructions through the hook counter verif_dispatches (counts nested run_function dispatches too) and the oracle requires dispatched <= max(budget,1); "
+            "`budcheck` runs one program under two budgets on fresh VMs and requires equal outcomes when neither timed out; corpus: sorted_by_key with a looping key function under a small budget, budget 0. "
+            "nat/std engines: host functions and library functions that call back into scripts, compared with the model incl. dispatch counts. non-trivial = program longer than 150 characters",
+    "trusted_base": ["the VM model (Vm.lean: step/exec/run) is hand-written; it is compared with vm.rs instruction by instruction only through outcomes, dispatch counts, stack/frame heights and accounted bytes",
+                     "host functions are assumed stack-neutral (they leave the value stack at least as high as they found it minus their arguments); a host function that pops more can make natives re-enter natives without consuming budget (native_recursion_ignores_budget) - in the Rust that recursion ends in a native stack overflow"],
+    "assumptions": ["`run` is started with room on the call stack (frames < capacity); otherwise it refuses to start (run_no_room) and nothing is dispatched"],
+    "partial": "fuel adequacy at every nesting depth (gas_suffices_Full) is false for arbitrary host functions and start states (not_gas_suffices_Full, witness: a cyclic table below __min with a native key function); it is proved for the top level (gas_suffices_toplevel): the structural fuel of the model never masks a Timeout of the outermost loop",
+    "technique": "Lean 4 proofs by induction on the structural fuel of the interpreter model (potential dispatches + remaining never increases; Timeout only when the budget is exhausted; simulation between budgets n and n+d) + differential correspondence incl. the real dispatch counter",
+    "level_text": "Proved in Lean for every program (arbitrary bytes), every start state with room on the call stack, every budget n and every host callback structure of the model: the potential dispatches + remaining never increases during exec, including all nested run_function levels entered from host functions (exec_potential), hence a run dispatches at most n - 1 <= n instructions (budget_bound_sharp, budget_bound, budget_bound_strict); no instruction is dispatched once the budget is exhausted and the loop then reports Timeout (exec_loop_exhausted, no_dispatch_when_exhausted, dispatch_needs_budget); Timeout is reported only with remaining = 0 (timeout_only_when_exhausted, no_timeout_with_budget_left); a run that did not end in Timeout (at any nesting depth) is reproduced exactly - same outcome, same final machine, same number of dispatched instructions - by every larger budget (budget_monotone, budget_monotone', budget_monotone_ok, by the simulation exec_shift). Termination of the model interpreter itself is by structural recursion on fuel (accepted by the kernel). Tied to vm.rs by the vm/nat/std engines, which compare outcomes and the real dispatch counter.",
+    "level_note": "Trusted: Lean kernel; hand-written VM model vs vm.rs as far as the sampled differential runs show; host functions stack-neutral; the claim 'every run terminates' is about the instruction loop - native code run by host functions is outside the model.",
+    "design_ref": "DESIGN.md 7 (C03)",
+}
+
+PROPS["C17"] = {
+    "engines": {"vm": {"quick": 400, "thorough": 4000}, "mem": {"quick": 100, "thorough": 1000}},
+    "rule": "vm engine histories on one REAL vm: run / clear / stats / `runcheck` (run on the used VM and on a new VM with the same configuration and registered functions: full outcomes incl. accounted bytes, frames, stack height and dispatch count must be equal) / "
+            "`repeat` (the same program 2-40 times with clear in between: every repetition equal to the first incl. accounted memory; without clear: equal observations whenever the first run succeeded), with small call-stack (6, 12) and value-stack (24) capacities so that a leaked frame or slot surfaces within a few runs, "
+            "after runs that ended in Timeout, OutOfMemory, Stackoverflow, CallStackOverflow and host-function errors. mem engine: clear returns the accounted bytes, object count, frames and stack to zero and resets the collection threshold. non-trivial = program longer than 150 characters",
+    "trusted_base": ["hand-written VM model vs vm.rs/runtime_data.rs as far as the differential histories show",
+                     "EqObs (the observational equality used by clear_eq_fresh) ignores the allocation counter heap.next (addresses are never observable), the ghost dispatch counters and the forcing schedule of the test hook"],
+    "assumptions": ["registered host functions are deterministic and keep no state of their own between runs"],
+    "partial": "clear_behaves_like_fresh_Full (a run on a cleared VM equals the run on a fresh VM, as a theorem about `run`) needs a relational frame property of `step` up to renaming of heap addresses and is not proved; it is decided on the implementation by runcheck/repeat histories. Proved: the cleared state is observationally a fresh state (clear_eq_fresh) and runs are functions of that state (run_deterministic, run_ignores_counters)",
+    "technique": "Lean 4 proofs about clear/run of the VM model (clear yields an observationally fresh machine with zero accounted memory; run restores the call stack and ignores leftover counters; determinism) + differential run/clear/repeat histories against the real VM and a fresh-VM oracle",
+    "level_text": "Proved in Lean for every machine state satisfying the memory ledger and every program: clear empties the value stack, call frames, globals, open upvalues, guards and the heap, returns exactly the charged bytes and resets the collection threshold (clear_fields, clear_contents, clear_accounting, clear_allocated, clear_ledger), so the cleared machine is observationally equal to a newly created one with the same configuration (clear_eq_fresh, clear_clear; EqObs is an equivalence: EqObs.refl/symm/trans); run leaves the call stack exactly as it found it, whatever the outcome, so repeated runs cannot exhaust it (run_restores_frames, run_no_frame_leak, run_frames_nil, run_full_stack, run_frameCap); the outcome of run is a function of program, budget and state and does not depend on the leftover budget/dispatch counters of earlier runs (run_deterministic, run_ignores_counters, run_ignores_counters_full). Tied to the real VM by runcheck/repeat histories and the counters compared after every operation.",
+    "level_note": "Trusted: Lean kernel; hand-written VM model vs the Rust as far as the sampled histories show; the run-level statement clear_behaves_like_fresh_Full is exercised (fresh-VM oracle on the real code), not proved.",
+    "design_ref": "DESIGN.md 7 (C17)",
+}
+
+PROPS["C15"] = {
+    "engines": {"trc": {"quick": 400, "thorough": 4000}, "cmp": {"quick": 150, "thorough": 1500}},
+    "rule": "trc engine: a failing card with unique content (failing host function, missing native, wrong-type operand of get/getprop/pop/dyncall, undefined variable, host function rejecting its argument) is planted in any value slot of any card kind (operators, if/else branches and conditions, repeat count and body, for-each body, while body, call arguments), "
+            "at call depth 0-3 through static and dynamic calls, in the root module or a submodule, main not necessarily first; the real error trace is resolved through the real Module::get_card: entry 0 must be the planted card, entries 1..d the call cards of the chain (optionally followed by the entry point); "
+            "compile errors (unknown function, empty variable name) planted the same way must be located at the planted card; `sweep`: a random well-scoped program is run with every budget 1..K (K 20-200) and small value stacks so that Timeout/Stackoverflow strike at every instruction: every trace entry must resolve to a card. "
+            "The Lean model resolves its own traces through the Module.getCard model and is compared line by line. cmp engine: the trace tables of compiled programs are compared byte for byte with the compiler model",
+    "trusted_base": ["the trace table is produced by the compiler model proved about; the run-time part (errTrace) is the model's definition, compared with vm.rs by the trc/vm engines"],
+    "assumptions": [],
+    "partial": "the literal statement 'every trace entry is a card that emitted the instruction' is false (naive_owner_false, naive_resolves_false): the conditional jumps of While/IfTrue/IfFalse/IfElse are recorded at the body child they guard, and the implicit epilogue of a function (Exit, ScalarNil/Return) is recorded one past the last card or at the empty index (known finding K5). The proved statement names these cases explicitly",
+    "technique": "Lean 4 proof over the total compiler model (Hoare-style trace logic, one mutual induction over processCard) that every trace entry and every located compile error is the path of a real sub-card holding an opcode that card (or its parent's jump) emits + differential correspondence with planted failing cards resolved through the real Module::get_card",
+    "level_text": "Proved in Lean for all cards, modules and compiler states: compiling a card restores the position bookkeeping and records only entries whose index is the path of a real sub-card (processCard_trace_paths), every located error of the card compiler is such a path (processCard_error_path), the byte at each trace key in the final bytecode is an opcode that the resolved card emits itself or that its parent emits on its behalf, and later back-patching never touches a trace key (processCard_trace_owner, processCard_keeps_labels); for a whole program every trace entry resolves, through the submodule path of its namespace and Module.getCard, to a card of the source module (std included) whose opcode is attributed to it, or is one of the explicitly characterised epilogue entries (compile_trace_resolves, _deep, _op); a compile error located anywhere resolves to a card, a function header, or is one of the module-level errors without location (compile_error_resolves, _deep); the run-time trace is the entry of the failing instruction followed by the entries of the call sites of the active frames, innermost first (errTrace_shape, errTrace_cons, errTrace_all), each resolving as above (errTrace_resolves), and a call site holding CallFunction resolves to a Call or DynamicCall card (call_site_is_call_card, processCard_call_site).",
+    "level_note": "Trusted: Lean kernel; compiler model byte-identical to compiler.rs as far as the cmp engine shows; that the VM's failing address and frame call sites are trace keys is compared, not proved.",
+    "design_ref": "DESIGN.md 7 (C15)",
+}
+
+PROPS["C08"] = {
+    "engines": {"cmp": {"quick": 400, "thorough": 4000}, "sem": {"quick": 60, "thorough": 600, "driver_is_spec": True}, "wf": {"quick": 150, "thorough": 1500}},
+    "rule": "cmp engine: random module trees (depth 0-3, same-named functions in different modules, function imports, module-prefix imports, super. chains, absolute paths) plus a malformed stream (invalid function/module names, duplicate functions, duplicate modules, a user module named std, imports without dot, ambiguous imports, missing main, too deep nesting, too many super.): "
+            "the real compile() result (bytes incl. call operands, labels, or the error kind and location) is compared with the compiler model proved about. sem engine: the real compile+run of well-scoped programs with calls through every resolution path is compared with the reference semantics, whose lookup is the documented order (Sem.resolve) and whose calls bind parameters by the convention and give the callee a fresh environment. "
+            "wf engine: every function-pointer operand of the bytes the REAL compiler emitted has a label at an instruction start",
+    "trusted_base": ["reference semantics Sem.lean (hand-written from the language documentation) is the specification side",
+                     "String.splitOn on '.' is used identically by the compiler model and the reference lookup; that the last segment of an import path contains no '.' (executeImports_simpleKeys_Full) is stated and checked on examples, not proved (no core lemmas about splitOn)",
+                     "function handles are a 32-bit hash of the position in the flattened stream: distinctness is the explicit hypothesis HandleInj (proved for the first 64 positions, handleInj_64); the compiler does not check it"],
+    "assumptions": ["calls supply as many arguments as the callee declares (a call with fewer arguments makes the callee consume the caller's most recent values: known finding K4; the repository's own tests rely on passing arguments implicitly on the stack)"],
+    "partial": "the run-time half ('executes that function's body and no other') is proved up to the label table: the call operand is the handle of the designated function and that handle is labelled at the start of that function's body, which later compilation never changes (compile_calls_resolve, compile_function_labels, compile_call_target_labelled); that CallFunction jumps to the labelled position and binds arguments is the VM model's definition, compared with vm.rs by the sem/vm engines, not a theorem. `main` itself has no label (known finding K3)",
+    "technique": "Lean 4 proofs over the total compiler model: resolution characterised as a pure 4-step function equal to the reference lookup; exact acceptance/rejection conditions of the module front end; emitted call operands and labels designate the resolved function + differential correspondence (compiler bytes, reference semantics as oracle)",
+    "level_text": "Proved in Lean for all module trees, names and import lists: resolveFunction is exactly the documented four-step lookup (resolveFunction_spec, resolveSpec_unfold) and agrees with the reference lookup Sem.resolve on every stream the front end produces - same target or a compile error (resolve_agrees_sound, resolve_agrees_complete, resolve_agrees, resolve_invalidJump_sem, resolve_agrees_stream); the front end accepts a tree iff all names are valid, sibling modules and full function names are distinct, every import has a dot and last segments are distinct, main exists and the nesting is within the limit, and each defect yields its own error kind (intoIrStream_ok_iff-style characterisations: compile_ok_iff, intoIrStream_error_sound/_only, compile_rejects_bad_name, _dup_names, _dup_fn_in_module, _dup_modules, _user_std, _bad_imports, _too_deep, intoIrStream_noMain_iff, executeImports_accepts/_error_kinds); on success the stream is exactly the tree's functions, each once, main first (intoIrStream_stream, intoIrStream_main_first, intoIrStream_semFlatten, compile_ok_names_unique); a static call emits exactly the handle and arity of the resolved function and every called name of every function resolves to the function the reference lookup designates, whose handle is labelled at its body start (encodeJump_emits_target, compile_calls_resolve, compile_function_labels, compile_call_target_labelled). Findings proved as theorems: orders_differ (dotted import keys), ex_mod_import_super (module-prefix import through super. never resolves), ex_root_shadows_same_module.",
+    "level_note": "Trusted: Lean kernel; compiler model byte-identical to compiler.rs as far as the cmp engine shows; Sem.lean is the specification; handle injectivity and the splitOn fact are explicit hypotheses; VM call mechanics compared, not proved.",
+    "design_ref": "DESIGN.md 7 (C08)",
+}
+
 # properties not claimed yet (kept current; moved into PROPS as their checks land)
 NOT_YET = {
     "C01": "check under construction in this session (see DESIGN.md section 9 for the order of work); not yet claimed",
-    "C02": "check under construction in this session (see DESIGN.md section 9 for the order of work); not yet claimed",
-    "C03": "check under construction in this session (see DESIGN.md section 9 for the order of work); not yet claimed",
     "C04": "check under construction in this session (see DESIGN.md section 9 for the order of work); not yet claimed",
-    "C05": "check under construction in this session (see DESIGN.md section 9 for the order of work); not yet claimed",
     "C06": "check under construction in this session (see DESIGN.md section 9 for the order of work); not yet claimed",
     "C07": "check under construction in this session (see DESIGN.md section 9 for the order of work); not yet claimed",
-    "C08": "check under construction in this session (see DESIGN.md section 9 for the order of work); not yet claimed",
     "C09": "check under construction in this session (see DESIGN.md section 9 for the order of work); not yet claimed",
     "C10": "check under construction in this session (see DESIGN.md section 9 for the order of work); not yet claimed",
     "C11": "check under construction in this session (see DESIGN.md section 9 for the order of work); not yet claimed",
     "C12": "check under construction in this session (see DESIGN.md section 9 for the order of work); not yet claimed",
     "C13": "check under construction in this session (see DESIGN.md section 9 for the order of work); not yet claimed",
-    "C15": "check under construction in this session (see DESIGN.md section 9 for the order of work); not yet claimed",
     "C16": "check under construction in this session (see DESIGN.md section 9 for the order of work); not yet claimed",
-    "C17": "check under construction in this session (see DESIGN.md section 9 for the order of work); not yet claimed",
     "C18": "check under construction in this session (see DESIGN.md section 9 for the order of work); not yet claimed",
     "C19": "check under construction in this session (see DESIGN.md section 9 for the order of work); not yet claimed",
 }
